@@ -122,7 +122,7 @@ def main(tier):
     if tier == 'quick':
         cfgs = [(4, 8, 0, (0,), 0), (4, 8, 0, (0,), 1), (4, 12, 5, (1, 0), 0), (3, 9, 4, (0, 1), 1), (5, 11, 0, (0,), 0), (4, 15, 5, (2, 0), 0), (4, 11, 5, (1,), 0), (3, 13, 4, (0, 2), 1)]      # incl. empty buckets below the last bunch
     else:
-        cfgs = [(4, N, 5, b, c) for N in (8, 9, 10, 11, 12, 16) for b in ((0,), (0, 1), (1, 0)) if max(b) * 5 + 4 <= N for c in (0, 1)] + [(5, 20, 6, (0, 2), 0), (6, 13, 0, (0,), 1)]
+        cfgs = [(4, N, 5, b, c) for N in (8, 9, 10, 11, 12, 16) for b in ((0,), (0, 1), (1, 0)) if max(b) * 5 + 4 <= N for c in (0, 1)] + [(5, 20, 6, (0, 2), 0), (6, 13, 0, (0,), 1), (4, 24, 5, (1, 0), 1), (6, 32, 7, (0, 2), 0), (8, 50, 9, (1, 0), 1), (4, 64, 5, (3, 1), 0)]
     import c18
     jobs = [(c18.job_history, (4, 8, 0, (0,), 2, 0)), (c18.job_history, (3, 12, 4, (0, 2), 1, 1))]      # the spectrum is that of the current profile and the current cutoff, whatever was computed before (other profiles, the other cutoff setting)
     jobs += [(job_spectrum, c) for c in cfgs] + [(job_spectrum, tuple(c) + (True,)) for c in cfgs if not c[4]] + [(job_parseval, (n,)) for n in ((3, 4) if tier == 'quick' else (2, 3, 4))] + [(job_parseval, (n, 8)) for n in ((4, 5) if tier == 'quick' else (2, 3, 4, 5, 6, 7, 8))]
